@@ -139,10 +139,9 @@ pub fn check_spec(spec: &RuleSpec, level: u8, doc_cap: usize) -> Stats {
 
 pub fn run(tier: Tier) -> i32 {
     let mut rep = Report::new("C02", tier);
-    let level = if tier.thorough() { 1 } else { 0 };
-    let doc_cap = if tier.thorough() { 2000 } else { 300 };
-    let dlevel = if tier.thorough() { 2 } else { 1 };
-    let specs = gen::universe(level);
+    let doc_cap = if tier.thorough() { 3000 } else { 600 };
+    let dlevel = 2;
+    let specs = if tier.thorough() { gen::universe(1) } else { gen::universe_quick() };
     let parts: Vec<Stats> = specs
         .par_iter()
         .map(|s| check_spec(s, dlevel, doc_cap))
